@@ -106,7 +106,8 @@ SCRIPT_ALPHA = [_tk("d5"), _tk("d3"), _tk("t2"), _tk("o3"), _tk("z"), _tk("h"), 
                 _tk("cj"), _tk("cj", gap=1), _tk(" ", nan=1), _tk("-", nan=1),
                 # slow words: they last longer than the pause threshold, so "separated from the previous token" differs from
                 # "separated from the token before the previous one"
-                _tk("and", dur=150), _tk("pt", dur=150), _tk("cj", dur=150), _tk("lk", dur=150)]
+                _tk("and", dur=150), _tk("pt", dur=150), _tk("cj", dur=150), _tk("lk", dur=150),
+                _tk("e1"), _tk("e1", gap=1)]
 
 
 def render_tokens(specs):
@@ -339,6 +340,28 @@ def s_annot(tier, seed, out):
                     toks.append("%s,%s" % (esc(w), esc(w.lower())))
                 out.write("annot\t%s\t%s\n" % (lang, " ".join(toks)))
                 n += 1
+        # two ambiguous words in one text, every neighbour drawn from the WHOLE vocabulary of the language (the passes
+        # probe their neighbours with a scratch builder: any word class may leave something behind)
+        vocab_all = [w for w in bank(lang)["num"] if w and " " not in w and len(w) < 20]
+        amb = "o" if lang == "en" else "neuf"
+        dets = ["the", "a", "x"] if lang == "en" else ["un", "le", "du", "l'", "mon"]
+        for _ in range(6000 if tier != "thorough" else 80000):
+            seq = []
+            for _c in range(2):
+                seq += [rng.choice(dets)]
+                if rng.chance(1, 2):
+                    seq += [rng.choice(["bon", "petit", "x"])]
+                seq += [rng.choice(vocab_all) if rng.chance(2, 3) else rng.choice(pool), amb,
+                        rng.choice(vocab_all) if rng.chance(2, 3) else rng.choice(pool)]
+                if rng.chance(1, 2):
+                    seq += [rng.choice(["chat", "cat", "dort", ".", ","])]
+            toks = []
+            for i, w in enumerate(seq):
+                if i:
+                    toks.append("%s,%s" % (esc(" "), esc(" ")))
+                toks.append("%s,%s" % (esc(w), esc(w.lower())))
+            out.write("annot\t%s\t%s\n" % (lang, " ".join(toks)))
+            n += 1
         for _ in range(3000 if tier != "thorough" else 40000):
             k = 2 + rng.below(7)
             toks = []
